@@ -176,6 +176,11 @@ def _close32(got, exp, scale=None):
 def run_case(d):
     from abacusnbody.data.compaso_halo_catalog import CompaSOHaloCatalog
 
+    # a process that reads catalogs commonly has the particle reader and the HOD preparation imported as well (hod/prepare_sim imports
+    # both): importing a sibling module must not change what the catalog reader returns (module-level state such as
+    # bitpacked.PID_FIELDS is shared between them)
+    import abacusnbody.data.read_abacus  # noqa: F401
+
     from vt import env
 
     env.register_asdf()
